@@ -195,7 +195,13 @@ func VerifC16Atomic() {
 
 // ReplayC16Atomic: a size limit (RLIMIT_FSIZE) cuts the real write short.
 func ReplayC16Atomic() {
-	if !frBit("shortWrite") && func() bool { v, _ := nd.Lookup("crashAt"); return v == 0 }() {
+	// Realisable natively: a write cut short (size limit), which also stands
+	// for an interruption between the truncating open and the completed write
+	// (crash point 2). A failing open (the sandbox runs as root) and crash
+	// points at which the model's disk already holds original or complete
+	// content have no native counterpart here.
+	crashAt, _ := nd.Lookup("crashAt")
+	if frBit("openErr") || !(frBit("shortWrite") || crashAt == 2) {
 		fmt.Println("REPLAY-ERROR: nothing to realise")
 		return
 	}
